@@ -847,9 +847,13 @@ class Engine:
                     path, step, 0)
                 deferred_updates.append((update, store))
 
+            # collect every result of the layer before applying any
+            updates = [
+                (update.get(), store) for update, store in deferred_updates]
+
             view_expire = False
-            for update, store in deferred_updates:
-                view_expire_update = self.apply_update(update.get(), store)
+            for update, store in updates:
+                view_expire_update = self.apply_update(update, store)
                 view_expire = view_expire or view_expire_update
 
             if view_expire:
@@ -866,10 +870,15 @@ class Engine:
                 ``state`` is the store from whose perspective the update
                 was generated.
         """
+        # Collect every result before applying any of them: applying a
+        # structural update may end (parallel) processes whose own
+        # updates are part of this batch.
+        updates = [
+            (update.get(), state) for update, state in update_tuples]
+
         view_expire = False
-        for update_tuple in update_tuples:
-            update, state = update_tuple
-            view_expire_update = self.apply_update(update.get(), state)
+        for update, state in updates:
+            view_expire_update = self.apply_update(update, state)
             view_expire = view_expire or view_expire_update
 
         if view_expire:
